@@ -114,8 +114,11 @@ pub broadcast axiom fn axiom_chars_le_bytes(s: &str)
 pub broadcast axiom fn axiom_encode_len(s: Seq<char>)
     ensures #[trigger] vstd::utf8::encode_utf8(s).len() >= s.len();
 
+/// `<&str as ToString>::to_string` (Display of a &str is the string itself)
+pub broadcast axiom fn axiom_refstr_to_string(t: &&str, res: String)
+    ensures #[trigger] vstd::string::to_string_from_display_ensures::<&str>(t, res) <==> res@ == (*t)@;
 pub broadcast group group_vx_axioms {
-    axiom_str_len_bound, axiom_chars_le_bytes, axiom_encode_len,
+    axiom_refstr_to_string, axiom_str_len_bound, axiom_chars_le_bytes, axiom_encode_len,
     axiom_uni_alphabetic_ascii, axiom_uni_numeric_ascii, axiom_uni_uppercase_ascii, axiom_uni_lowercase_ascii,
     axiom_string_eq_str, axiom_string_obeys_eq_str, axiom_string_eq_refstr, axiom_string_obeys_eq_refstr,
     axiom_str_eq_string, axiom_str_obeys_eq_string, axiom_refstr_eq_string, axiom_refstr_obeys_eq_string,
